@@ -25,13 +25,14 @@ PLAN = {
     "C03": {"quick": [J("udp_sys", 1600), J("http_sys", 3000), J("ws_sys", 2000), J("udp_store", 15000), J("http_store", 15000)],
             "thorough": [J("udp_sys", 50000), J("http_sys", 100000), J("ws_sys", 60000), J("udp_store", 500000), J("http_store", 500000)]},
     "C06": {"quick": [J("udp_sys", 3200)], "thorough": [J("udp_sys", 100000)]},
-    "C12": {"quick": [J("udp_sys", 2400), J("http_sys", 4000), J("ws_sys", 2500)], "thorough": [J("udp_sys", 50000), J("http_sys", 100000), J("ws_sys", 60000)]},
+    "C12": {"quick": [J("udp_sys", 2400), J("http_sys", 4000), J("ws_sys", 2500), J("parsers", 80000)],
+            "thorough": [J("udp_sys", 50000), J("http_sys", 100000), J("ws_sys", 60000), J("parsers", 3000000)]},
     "C16": {"quick": [J("http_sys", 8000)], "thorough": [J("http_sys", 300000)]},
     "C17": {"quick": [J("ws_sys", 5000)], "thorough": [J("ws_sys", 150000)]},
     "C18": {"quick": [J("udp_sys", 480), J("http_sys", 640)], "thorough": [J("udp_sys", 10000), J("http_sys", 10000)]},
     "C19": {"quick": [J("udp_sys", 2400), J("http_sys", 3000), J("ws_sys", 2500)], "thorough": [J("udp_sys", 60000), J("http_sys", 60000), J("ws_sys", 60000)]},
-    "C02": {"quick": [J("udp_store", 12000), J("http_store", 30000), J("ws_store", 60000)],
-            "thorough": [J("udp_store", 500000), J("http_store", 1500000), J("ws_store", 2000000)]},
+    "C02": {"quick": [J("udp_store", 12000), J("http_store", 30000), J("ws_store", 60000), J("lattice", 320)],
+            "thorough": [J("udp_store", 500000), J("http_store", 1500000), J("ws_store", 2000000), J("lattice", 4000)]},
     "C04": {"quick": [J("udp_conc", 320, crate="conc")], "thorough": [J("udp_conc", 4000, crate="conc")]},
     "C05": {"quick": [J("validator", 400000), J("udp_sys", 800)], "thorough": [J("validator", 10000000), J("udp_sys", 50000)]},
     "C07": {"quick": [J("http_store", 60000)], "thorough": [J("http_store", 3000000), J("http_sys", 60000)]},
@@ -70,7 +71,8 @@ PROPS = {
             "expect_probes": ["inline-to-heap", "heap-to-inline-by-stop", "seeder-status-flip", "clean-removed-something"],
             "assumptions": ["reference tracker of DESIGN.md section 4 is the specification", "sampling, not enumeration"]},
     "C02": {"level": "exploration", "rule": _STORE_RULE, "expect_probes": ["swarm-exceeds-limit", "numwant-nonpositive"],
-            "assumptions": ["UDP/WS storage RNG is SmallRng seeded per run (offsets sampled, not enumerated)"]},
+            "assumptions": ["UDP storage RNG is a concrete SmallRng seeded per run (offsets sampled, not enumerated); HTTP storage and the WebTorrent selection routine take the simulator's adversarial RNG that forces both ends of every random_range",
+                            "the lattice harness sweeps swarm sizes 0..40 (quick) / 0..160 (thorough) x 16 limits x 4 requester positions x 8 RNG outcomes completely"]},
     "C04": {"level": "exploration",
             "rule": ("one run = one generated program (0-4 sequential pre-operations, then 2-4 threads with 1-3 operations each: announce / stop / "
                      "scrape of 1-3 torrents / cleaning pass, over 3 torrents of which two share a shard, deadlines straddling the cleaning time) "
@@ -90,7 +92,9 @@ PROPS = {
             "assumptions": ["mio backend only (the io_uring backend is not simulated)", "worker clock samples may lag by 256 poll timeouts: connection-id validity inside that window is accepted either way"]},
     "C12": {"level": "exploration", "rule": _SYS_RULE + "; here every client datagram may be truncated, extended, bit-flipped, replaced or spoofed in flight",
             "expect_probes": ["malformed-request", "garbage-datagram", "spoofed-source"],
-            "assumptions": ["sampled, fault-driven input corruption only - not a substitute for coverage-guided fuzzing of the parsers (weakest claim)", "harness built with overflow checks on; any panic of a tracker thread is a violation"]},
+            "assumptions": ["sampled, fault-driven input corruption only - not a substitute for coverage-guided fuzzing of the parsers (weakest claim)", "harness built with overflow checks on; any panic of a tracker thread is a violation",
+                            "a counting global allocator bounds the bytes a tracker thread allocates between receiving network input and its next seam call by 64 x input + 1 MiB",
+                            "the parsers harness replays network-shaped damage (truncation at every offset, extension, bit flips, replacement) directly at the server- and client-side parsing entry points"]},
     "C16": {"level": "exploration",
             "rule": ("one run = one generated scenario (1-3 socket x 1-3 swarm workers, listener layout, keep-alive on/off, reverse-proxy mode, limits, 2-6 "
                      "client connections issuing announces / scrapes cut into TCP segments at arbitrary bytes (also inside the final CRLFCRLF), malformed and "
